@@ -74,7 +74,7 @@ def run(ck):
             strs += ["".join(t) for t in itertools.product(alpha, repeat=L)]
     else:
         strs = ["".join(rng.choice(alpha) for _ in range(rng.randint(0, 9))) for _ in range(4000)]
-    ck.stream("canonical_path", strs, "strgo_canon", "strgo_canon", None, nontrivial=lambda s: "/" in s,
+    ck.stream("canonical_path", strs, "C17_canon", "strgo_canon", None, nontrivial=lambda s: "/" in s,
               sig=lambda c, e, o: "canonical-path", sample=2)
     return ck.finish(
         rule="random save/del/match/get/all histories over nested/overlapping directory and exact patterns "
